@@ -24,20 +24,57 @@ def lam(ksort, fn, name="a"):
     return z3.Lambda([a], to_real(body))
 
 
+_CANON = {}
+
+
+def is_lambda(e):
+    return z3.is_quantifier(e) and e.is_lambda()
+
+
+def canon_array(st, arr):
+    """A lambda passed to an uninterpreted function makes counter-models unobtainable (z3 answers
+    unknown).  Each distinct lambda (up to alpha) is therefore named by a constant; its defining
+    equation is instantiated at the keys where it is read (`array_at`)."""
+    if not is_lambda(arr):
+        return arr
+    arr = z3.simplify(arr)
+    if not is_lambda(arr):
+        return arr
+    key = (arr.sort().sexpr(), arr.body().sexpr())
+    if key not in _CANON:
+        import hashlib
+        h = hashlib.sha1(repr(key).encode()).hexdigest()[:10]
+        _CANON[key] = (z3.Const("fam_" + h, arr.sort()), arr)
+    c, lam_ = _CANON[key]
+    st.ghost.setdefault("canon", {})[c.get_id()] = (c, lam_)
+    return c
+
+
+def array_at(st, arr, k):
+    """arr[k], instantiating the definition of a named lambda at k"""
+    canon = st.ghost.get("canon", {})
+    if arr.get_id() in canon:
+        c, lam_ = canon[arr.get_id()]
+        val = z3.simplify(z3.Select(lam_, k))
+        st.assume(z3.Select(c, k) == val)
+        return val
+    return z3.simplify(z3.Select(arr, k))
+
+
 def SumOver(st, V, f, ksort):
     """finite sum over the key set V of f (L3).  The two defining equations are instantiated for
     the syntactic shape of V (empty set / one-element extension); nothing else is assumed."""
     F = sum_fn(ksort)
-    V = z3.simplify(V) if False else V
+    f = canon_array(st, f)
+    if is_lambda(V):
+        V = canon_array(st, V)
     term = F(V, f)
     if z3.is_K(V) and z3.is_false(V.arg(0)):
         st.assume(term == 0)
     elif z3.is_store(V) and z3.is_true(V.arg(2)):
         V0, k = V.arg(0), V.arg(1)
-        st.assume(z3.Implies(z3.Not(z3.Select(V0, k)),
-                             term == F(V0, f) + z3.simplify(z3.Select(f, k))))
-        # recurse so nested stores (two insertions) are unfolded too
-        SumOver(st, V0, f, ksort)
+        inner = SumOver(st, V0, f, ksort)     # nested stores (two insertions) are unfolded too
+        st.assume(z3.Implies(z3.Not(z3.Select(V0, k)), term == inner + array_at(st, f, k)))
     return term
 
 
